@@ -19,6 +19,8 @@ OUTSIDE = ['objectives with more than 4 monomials', 'n + ancillas > 9', 'symboli
 BOUNDS = {'quick': {'forms': ['model itself', 'to_qubo', 'to_quso', 'solve_bruteforce (n+ancillas<=5)'], 'menus': 6},
           'thorough': {'forms': ['model itself', 'to_qubo', 'to_quso', 'to_pubo', 'to_puso', 'solve_bruteforce'], 'menus': 'all'}}
 
+from .c06 import GATES, truth
+
 REL = {'le': lambda v: v <= 0, 'eq': lambda v: v == 0, 'ne': lambda v: v != 0, 'gt': lambda v: v > 0, 'lt': lambda v: v < 0, 'ge': lambda v: v >= 0}
 
 # boolean menus over labels x0,x1,x2
@@ -35,6 +37,14 @@ MENU_B = {
     'le_pair': [('le', {('x0',): 1, ('x1',): 1, (): -1}, True)],
     'le_deep_nolog': [('le', {('x0',): 1, ('x2',): -3}, False)],
     'ge_deep_nolog': [('ge', {('x1',): 4, ('x0',): -1, ('x2',): -1, (): -1}, False)],
+    # logical constraints with three inputs (the output is the first label)
+    'eqOR3': [('eq_OR', ('x3', 'x0', 'x1', 'x2'), None)],
+    'eqNOR3+NAND': [('eq_NOR', ('x3', 'x0', 'x1', 'x2'), None), ('NAND', ('x0', 'x3'), None)],
+    'eqAND3': [('eq_AND', ('x3', 'x0', 'x1', 'x2'), None)],
+    'eqNAND3+OR': [('eq_NAND', ('x3', 'x0', 'x1', 'x2'), None), ('OR', ('x1', 'x3'), None)],
+    'eqXOR+NOR': [('eq_XOR', ('x2', 'x0', 'x1'), None), ('NOR', ('x3', 'x0'), None)],
+    'eqXNOR3': [('eq_XNOR', ('x3', 'x0', 'x1', 'x2'), None)],
+    'XNOR+eqNOT': [('XNOR', ('x0', 'x1', 'x2'), None), ('eq_NOT', ('x3', 'x0'), None)],
 }
 # spin menus over z0,z1,z2
 MENU_S = {
@@ -50,12 +60,10 @@ MENU_S = {
 
 def holds(cons, a, spin):
     for kind, P, lt in cons:
-        if kind in ('AND', 'OR', 'XOR'):
-            vals = [a[l] for l in P]
-            ok = {'AND': all(vals), 'OR': any(vals), 'XOR': sum(vals) % 2 == 1}[kind]
-            if not ok: return False
-        elif kind == 'eq_AND':
-            if a[P[0]] != (1 if all(a[l] for l in P[1:]) else 0): return False
+        if kind in GATES:
+            if not truth(kind, [a[l] for l in P]): return False
+        elif kind.startswith('eq_'):
+            if a[P[0]] != (1 if truth(kind[3:], [a[l] for l in P[1:]]) else 0): return False
         else:
             v = 0
             for k, c in P.items():
@@ -71,7 +79,7 @@ def make_flow(ctx, spin, menu, form, U=None):
     import qubovert as qv
     U = [tuple(k) for k in (U or [['x0'], ['x1'], ['x2'], ['x0', 'x1']])]
     cons = (MENU_S if spin else MENU_B)[menu]
-    labs = sorted({'x0', 'x1', 'x2'} | {i for k in U for i in k})
+    labs = sorted({'x0', 'x1', 'x2'} | {i for k in U for i in k} | {l for kind, P, _ in cons if isinstance(P, tuple) for l in P})
     cs = {k: ctx.real_var('f%d' % i) for i, k in enumerate(U)}
     lam = ctx.real_var('lam', 0, lo_strict=True)
     allx = list(O.assigns(labs, spin))
@@ -88,8 +96,7 @@ def make_flow(ctx, spin, menu, form, U=None):
             warnings.simplefilter('ignore')
             H = T({k: cs[k] for k in U})
             for kind, P, lt in cons:
-                if kind in ('AND', 'OR', 'XOR'): getattr(H, 'add_constraint_' + kind)(*P, lam=lam)
-                elif kind == 'eq_AND': H.add_constraint_eq_AND(*P, lam=lam)
+                if kind in GATES or kind.startswith('eq_') and kind != 'eq': getattr(H, 'add_constraint_' + kind)(*P, lam=lam)
                 elif kind == 'eq': H.add_constraint_eq_zero(dict(P), lam=lam)
                 else: getattr(H, 'add_constraint_%s_zero' % kind)(dict(P), lam=lam, log_trick=lt)
             hv = sorted(H.variables, key=str)
@@ -188,7 +195,7 @@ def jobs(tier, seed):
                       args=dict(spin=spin, menu=menu, form=form, U=U), budget_s=budget if tier == 'quick' else 2400, final_timeout_ms=120000))
     if tier == 'quick':
         forms = ['H', 'to_qubo', 'to_quso', 'solve_bruteforce']
-        mb = ['le_sum', 'eq+ne', 'gt_nolog', 'AND+lt', 'OR+eqAND', 'lt+le', 'le_deep_nolog']
+        mb = ['le_sum', 'eq+ne', 'gt_nolog', 'AND+lt', 'OR+eqAND', 'lt+le', 'le_deep_nolog', 'eqOR3', 'eqNOR3+NAND', 'eqXOR+NOR']
         ms = ['le_sum', 'eq', 'gt+ge', 'gt+le', 'le_deep_nolog']
     else:
         forms = ['H', 'to_qubo', 'to_quso', 'to_pubo', 'to_puso', 'solve_bruteforce']
